@@ -126,6 +126,14 @@ def durations(ctx):
         exp = pending_fall(ch)
         if df != exp:
             out.append((f"C02:channel-duration-with-fall:{k}", f"{name}: reported {df}, expected {exp}"))
+        # lower bound from the scheduled samples alone (documented filter): standard-mode pulses only
+        last = next((s for s in reversed(ch.slots) if s.kind == "pulse"), None)
+        bw = ctx.world.params(ch.ch_id)["bw"]
+        if last is not None and bw and not last.in_eom and not last.cur_eom and not last.pulse.detuned_delay:
+            ctx.act["duration_with_fall_physical_bound"] += 1
+            lo = last.tf + physical_fall(last, bw)
+            if df < lo:
+                out.append((f"C02:duration-with-fall-time-ends-before-the-output:{k}", f"{name}: reported {df}, modulated output of {last.brief()} present until {lo}"))
         ends.append((ch.end, exp))
     if ends and len(ends) == len(ctx.post.channels):
         if seq.get_duration() != max(e for e, _ in ends):
